@@ -28,22 +28,23 @@ VARIABLES l,        \* next line
           pdiv, psteps,  \* progress counters the trace implies (post-warm-up divergences, steps)
           emptySeen,     \* per chain: its mailbox held no confirmed message at some instant since the
                          \* chain's previous event (a poll is logged after it happened)
+          flushedSet,    \* chains whose storage was flushed while the current flush command is handled
           mustfail,      \* chains whose density raised an unrecoverable error inside the current draw
           lastcb,        \* per chain: finished draws reported by the last progress callback
           snap           \* per chain: rec[i] if the chain was quiescent when the controller took the
                          \* current command, else -1
 
-tvars == <<vars, l, unconf, fullpos, pdiv, psteps, emptySeen, snap, lastcb, mustfail>>
+tvars == <<vars, l, unconf, fullpos, pdiv, psteps, emptySeen, snap, lastcb, mustfail, flushedSet>>
 R == Rec[l]
 IsEvent(e) == l <= Len(Rec) /\ Rec[l].ev = e /\ l' = l + 1
-Silent == UNCHANGED <<l, unconf, fullpos, pdiv, psteps, emptySeen, snap, lastcb, mustfail>>
-Keep == UNCHANGED <<unconf, fullpos, pdiv, psteps, emptySeen, snap, lastcb, mustfail>>
-KeepBut(i) == /\ UNCHANGED <<unconf, fullpos, pdiv, psteps, snap, lastcb, mustfail>>
+Silent == UNCHANGED <<l, unconf, fullpos, pdiv, psteps, emptySeen, snap, lastcb, mustfail, flushedSet>>
+Keep == UNCHANGED <<unconf, fullpos, pdiv, psteps, emptySeen, snap, lastcb, mustfail, flushedSet>>
+KeepBut(i) == /\ UNCHANGED <<unconf, fullpos, pdiv, psteps, snap, lastcb, mustfail, flushedSet>>
               /\ emptySeen' = [emptySeen EXCEPT ![i] = (Len(mailbox'[i]) <= unconf[i])]
 
 Zero == [i \in Chains |-> 0]
 TInit == TLCSet(2, 0) /\ Init /\ l = 1 /\ unconf = Zero /\ fullpos = <<>> /\ pdiv = Zero /\ psteps = Zero
-         /\ emptySeen = [i \in Chains |-> TRUE] /\ snap = [i \in Chains |-> -1] /\ lastcb = [i \in Chains |-> 0] /\ mustfail = {}
+         /\ emptySeen = [i \in Chains |-> TRUE] /\ snap = [i \in Chains |-> -1] /\ lastcb = [i \in Chains |-> 0] /\ mustfail = {} /\ flushedSet = {}
 
 \* ---- run boundaries -----------------------------------------------------
 TrReset ==
@@ -66,7 +67,7 @@ TrReset ==
     /\ results' = <<>> /\ senders' = NChains /\ cdone' = "no" /\ failed' = {}
     /\ win' = FALSE /\ quota' = Zero /\ since' = Zero
     /\ unconf' = Zero /\ fullpos' = R.fullpos /\ pdiv' = Zero /\ psteps' = Zero
-    /\ emptySeen' = [i \in Chains |-> TRUE] /\ snap' = [i \in Chains |-> -1] /\ lastcb' = [i \in Chains |-> 0] /\ mustfail' = {}
+    /\ emptySeen' = [i \in Chains |-> TRUE] /\ snap' = [i \in Chains |-> -1] /\ lastcb' = [i \in Chains |-> 0] /\ mustfail' = {} /\ flushedSet' = {}
 
 \* ---- user ---------------------------------------------------------------
 TrUCall ==
@@ -113,7 +114,16 @@ TrCtlRecv ==
     /\ snap' = [i \in Chains |->
                   IF i \notin failed /\ (ch[i].st = "done" \/ (ch[i].st = "parked" /\ mailbox[i] = <<>>))
                   THEN rec[i] ELSE -1]
+    /\ flushedSet' = {}
     /\ UNCHANGED <<unconf, fullpos, pdiv, psteps, emptySeen, lastcb, mustfail>>
+
+\* the recording storage of chain i was asked to flush (a harness event of the storage backend): only while the
+\* controller handles a flush command
+TrStFlush ==
+    /\ IsEvent("st_flush")
+    /\ cpc.st = "handle" /\ cpc.cmd = "flush"
+    /\ flushedSet' = flushedSet \cup {R.i}
+    /\ UNCHANGED <<vars, unconf, fullpos, pdiv, psteps, emptySeen, snap, lastcb, mustfail>>
 
 \* the progress callback, called on the controller thread at start-up, whenever `rate` has
 \* elapsed without a command, and once more when the command channel is closed: per chain the
@@ -128,7 +138,7 @@ TrCallback ==
           /\ R.total[i + 1] = Draws
           /\ R.finished[i + 1] > 0 => R.started[i + 1]
     /\ lastcb' = [i \in Chains |-> R.finished[i + 1]]
-    /\ UNCHANGED <<vars, unconf, fullpos, pdiv, psteps, emptySeen, snap, mustfail>>
+    /\ UNCHANGED <<vars, unconf, fullpos, pdiv, psteps, emptySeen, snap, mustfail, flushedSet>>
 
 TrCtlFwd ==
     /\ IsEvent("ctl_fwd")
@@ -136,13 +146,13 @@ TrCtlFwd ==
     /\ R.msg = (IF cpc.cmd = "pause" THEN "Pause" ELSE "Resume")
     /\ CtlForward
     /\ unconf' = [unconf EXCEPT ![R.i] = @ + 1]
-    /\ UNCHANGED <<fullpos, pdiv, psteps, emptySeen, snap, lastcb, mustfail>>
+    /\ UNCHANGED <<fullpos, pdiv, psteps, emptySeen, snap, lastcb, mustfail, flushedSet>>
 
 TrCtlFwdDone ==
     /\ IsEvent("ctl_fwd_done")
     \* (the receiver may already have taken the message)
     /\ unconf' = [unconf EXCEPT ![R.i] = IF @ > 0 THEN @ - 1 ELSE 0]
-    /\ UNCHANGED <<vars, fullpos, pdiv, psteps, emptySeen, snap, lastcb, mustfail>>
+    /\ UNCHANGED <<vars, fullpos, pdiv, psteps, emptySeen, snap, lastcb, mustfail, flushedSet>>
 
 \* before responses_tx.send: per-chain visits of flush / inspect / progress carry no
 \* event of their own and are folded in
@@ -150,6 +160,9 @@ TrCtlResp ==
     /\ IsEvent("ctl_resp")
     /\ cpc.st = "handle" /\ cpc.cmd = R.cmd
     /\ cpc.cmd \in {"pause", "resume"} => cpc.k > NChains
+    \* C15 / C11: a flush reaches the storage of every chain that still has one - also of a chain that has
+    \* recorded its last draw (its trailing draws may only be in a buffer)
+    /\ cpc.cmd = "flush" => flushedSet = {i \in Chains : slot[i] = "present"}
     \* C11: for chains that were quiescent the reported counters are exactly the trace's
     /\ cpc.cmd = "progress" =>
           \A i \in Chains :
@@ -202,7 +215,7 @@ TrChMsg ==
     \* a popped message can no longer be unconfirmed
     /\ unconf' = [unconf EXCEPT ![R.i] = IF @ > Len(mailbox'[R.i]) THEN Len(mailbox'[R.i]) ELSE @]
     /\ emptySeen' = [emptySeen EXCEPT ![R.i] = (Len(mailbox'[R.i]) <= unconf'[R.i])]
-    /\ UNCHANGED <<fullpos, pdiv, psteps, snap, lastcb, mustfail>>
+    /\ UNCHANGED <<fullpos, pdiv, psteps, snap, lastcb, mustfail, flushedSet>>
 
 TrChCheck ==
     /\ IsEvent("ch_check")
@@ -215,7 +228,7 @@ TrChCheck ==
 TrFatalFired ==
     /\ IsEvent("fatal_fired")
     /\ mustfail' = IF R.i \in Chains /\ ch[R.i].st = "drawing" THEN mustfail \cup {R.i} ELSE mustfail
-    /\ UNCHANGED <<vars, unconf, fullpos, pdiv, psteps, emptySeen, snap, lastcb>>
+    /\ UNCHANGED <<vars, unconf, fullpos, pdiv, psteps, emptySeen, snap, lastcb, flushedSet>>
 
 TrChDrawn ==
     /\ IsEvent("ch_drawn")
@@ -239,7 +252,7 @@ TrChRecorded ==
     /\ pdiv' = [pdiv EXCEPT ![R.i] = IF R.diverging /\ ~R.tuning THEN @ + 1 ELSE @]
     /\ psteps' = [psteps EXCEPT ![R.i] = @ + R.num_steps]
     /\ emptySeen' = [emptySeen EXCEPT ![R.i] = (Len(mailbox'[R.i]) <= unconf[R.i])]
-    /\ UNCHANGED <<unconf, fullpos, snap, lastcb, mustfail>>
+    /\ UNCHANGED <<unconf, fullpos, snap, lastcb, mustfail, flushedSet>>
 
 TrChResult ==
     /\ IsEvent("ch_result")
@@ -274,7 +287,7 @@ SilentNext ==
     /\ Silent
 
 TNext == \/ TrReset \/ TrUCall \/ TrURetCmd \/ TrURetWait \/ TrURetAbort
-         \/ TrCtlRecv \/ TrCallback \/ TrCtlFwd \/ TrCtlFwdDone \/ TrCtlResp \/ TrCtlFinalize \/ TrCtlFinalized
+         \/ TrCtlRecv \/ TrStFlush \/ TrCallback \/ TrCtlFwd \/ TrCtlFwdDone \/ TrCtlResp \/ TrCtlFinalize \/ TrCtlFinalized
          \/ TrFatalFired \/ TrChStart \/ TrChMsg \/ TrChCheck \/ TrChDrawn \/ TrChLocked \/ TrChRecorded
          \/ TrChResult \/ TrFinal
          \/ SilentNext
